@@ -128,6 +128,7 @@ type FuncCtx struct {
 	pendingWB []writeBack
 	observed map[string]bool
 	callOrd  map[*ast.CallExpr]int
+	inAtCall bool
 	loopEntry *State
 	coveredLoops map[int]bool
 	lastVariadic []*Val
